@@ -45,8 +45,12 @@ def _top_level_position(loop, st, pm):
     return loop.body.index(cur) if cur in loop.body else None
 
 
-def classify_for(loop, f):
+def classify_for(loop, f, idx=None):
     it = loop.iter
+    if isinstance(it, ast.Call) and idx is not None:
+        nfix = _fixed_size_helper(idx, f, it)
+        if nfix is not None:
+            return "STRUCT", ("for over the %d-element literal returned by %s(...)" % (nfix, call_name(it))) if nfix >= 0 else ("for over the generator %s(...), whose own loops are finite" % call_name(it))
     tgt_names = {n.id for n in ast.walk(loop.target) if isinstance(n, ast.Name)}
     cn = call_name(it) if isinstance(it, ast.Call) else None
     assigned = _assigned_names(loop.body)
@@ -71,6 +75,23 @@ def classify_for(loop, f):
     return None, "iterable `%s` not recognised" % u(it)
 
 
+def _fixed_size_helper(idx, f, call):
+    """the call resolves to a library function whose every return is a tuple / list literal: a finite sequence"""
+    callee = idx.resolve_call(f.module, call, f.cls) if idx is not None else None
+    fn = getattr(callee, "node", None)
+    if not isinstance(fn, ast.FunctionDef):
+        return None
+    rets = [st for st in ast.walk(fn) if isinstance(st, ast.Return) and st.value is not None]
+    if rets and all(isinstance(r.value, (ast.Tuple, ast.List)) for r in rets) and not any(isinstance(n, (ast.Yield, ast.YieldFrom)) for n in ast.walk(fn)):
+        return len(rets[0].value.elts)
+    if any(isinstance(n, (ast.Yield, ast.YieldFrom)) for n in ast.walk(fn)):
+        # a generator terminates when all of its own loops do
+        inner = [l for l in ast.walk(fn) if isinstance(l, (ast.For, ast.While))]
+        if all(isinstance(l, ast.For) and classify_for(l, callee, idx)[0] is not None for l in inner):
+            return -1
+    return None
+
+
 def _bound_compare(test, counter):
     """test (a Compare) bounds `counter` from above: returns bound text or None."""
     if not isinstance(test, ast.Compare) or len(test.ops) != 1:
@@ -92,6 +113,11 @@ def _exit_compare(test, counter):
         return u(b)
     if u(b) == counter and op in ("<", "<="):
         return u(a)
+    # counter == N is an exit for a counter that starts at a smaller integer constant and moves in steps of one (checked by the caller)
+    if op == "==" and u(a) == counter and isinstance(const(b), int):
+        return "==%d" % const(b)
+    if op == "==" and u(b) == counter and isinstance(const(a), int):
+        return "==%d" % const(a)
     return None
 
 
@@ -201,6 +227,12 @@ def classify_while(loop, f, idx):
                         t = local_bools[t.id]
                     for dj in disjuncts(t):
                         b = _exit_compare(dj, c)
+                        if b is not None and b.startswith("=="):
+                            # equality exit: sound only for a unit-step counter that starts below the bound
+                            inits = [s_ for s_ in ast.walk(f.node) if isinstance(s_, ast.Assign) and any(u(t_) == c for t_ in s_.targets) and s_.lineno < loop.lineno]
+                            unit = all(const(i_.value) == 1 for i_ in incs) and len(incs) == 1
+                            if not (unit and inits and isinstance(const(inits[-1].value), int) and const(inits[-1].value) < int(b[2:])):
+                                b = None
                         if b is not None:
                             # the exit must leave the loop on every path of the if body
                             last = st.body[-1]
@@ -457,5 +489,5 @@ def _helper_progress(helper, enumv):
 
 def classify(loop, f, idx):
     if isinstance(loop, ast.For):
-        return classify_for(loop, f)
+        return classify_for(loop, f, idx)
     return classify_while(loop, f, idx)
